@@ -180,3 +180,17 @@ Proof.
   split; [repeat constructor; right; reflexivity|].
   intros H. pose proof w8_ripemd_before as H1. pose proof w8_ripemd_after as H2. rewrite H, H1 in H2. discriminate H2.
 Qed.
+
+(* ---------- which fork gate selects the journalled balance write ---------- *)
+(* The model's [p002] flag is the value, at the current height, of the gate the implementation consults when it
+   chooses between the journalled SetData and the raw setData in AddFT/SubFT.  At HEAD that gate is Proposal002.
+   In the fork window (002 active, 003 not yet) the HEAD choice journals and the revert theorems apply; an
+   implementation that consults Proposal003 instead does not journal there, and the revert fails. *)
+Record gates := Gates { g002 : bool; g003 : bool }.
+Definition fork_window : gates := Gates true false.
+
+Lemma fork_window_gate_refuted :
+  g002 fork_window = true /\ g003 fork_window = false /\
+  exists s body q, good s /\ p002 s = g003 fork_window /\ Forall (item_ok true false) body /\
+                   observe q (after_revert body s) <> observe q s.
+Proof. split; [reflexivity|]. split; [reflexivity|]. exact pre002_refuted. Qed.
